@@ -653,6 +653,16 @@ bool ObjectFile::writeAttributes(File &objectFile)
 		}
 	}
 
+	// The data is only in the file once the stream has been flushed
+	if (!objectFile.flush())
+	{
+		DEBUG_MSG("Failed to flush object %s", path.c_str());
+
+		objectFile.unlock();
+
+		return false;
+	}
+
 	objectFile.unlock();
 
 	return true;
